@@ -1,6 +1,7 @@
 package main
 
 import (
+	"go/token"
 	"go/types"
 	"golang.org/x/tools/go/ssa"
 	"encoding/json"
@@ -126,6 +127,12 @@ func generate(w *World, prop string, only string) *genResult {
 	}
 	// package-wide structural disciplines
 	for _, u := range w.cs.Units {
+		for i, dd := range u.DetDisciplines {
+			if prop != "" && !hasTag(dd.Tags, prop) {
+				continue
+			}
+			r.obls = append(r.obls, detDisciplineObls(w, u, dd, i+1)...)
+		}
 		for i, rd := range u.ReachDisciplines {
 			if prop != "" && !hasTag(rd.Tags, prop) {
 				continue
@@ -304,6 +311,80 @@ func reachDisciplineObl(w *World, u *Unit, rd ReachDiscipline, n int) *Obl {
 		clause += "; offenders: " + strings.Join(offenders, " | ") + strings.Join(missing, " missing ")
 	}
 	return &Obl{Name: fmt.Sprintf("%s#no-reach#%d", u.PkgName, n), Func: u.PkgName, Clause: clause, Goal: goal, G: g, Kind: "discipline", Tags: rd.Tags}
+}
+
+// detDisciplineObls: one obligation per listed function.
+func detDisciplineObls(w *World, u *Unit, dd DetDiscipline, n int) []*Obl {
+	allowed := map[string]bool{}
+	for _, a := range dd.Allowed {
+		allowed[a] = true
+	}
+	for _, f := range dd.Funcs {
+		allowed[f] = true
+	}
+	var obls []*Obl
+	g := &gen{w: w, declared: map[string]bool{}}
+	for _, key := range dd.Funcs {
+		fn := w.funcsByKey[key]
+		var bad []string
+		if fn == nil {
+			bad = append(bad, "no such function")
+		}
+		var visit func(f *ssa.Function)
+		visit = func(f *ssa.Function) {
+			for _, b := range f.Blocks {
+				for _, in := range b.Instrs {
+					switch x := in.(type) {
+					case *ssa.Go:
+						bad = append(bad, "go statement")
+					case *ssa.Select:
+						bad = append(bad, "select")
+					case *ssa.Send:
+						bad = append(bad, "channel send")
+					case *ssa.UnOp:
+						if x.Op == token.ARROW {
+							bad = append(bad, "channel receive")
+						}
+					case *ssa.Range:
+						if _, isMap := x.X.Type().Underlying().(*types.Map); isMap {
+							bad = append(bad, "iteration over a map at "+w.pos(x.Pos()))
+						}
+					case *ssa.MakeClosure:
+						visit(x.Fn.(*ssa.Function))
+					case ssa.CallInstruction:
+						c := x.Common()
+						if _, isB := c.Value.(*ssa.Builtin); isB {
+							continue
+						}
+						full, _ := g.calleeName(c)
+						if _, isClosure := c.Value.(*ssa.MakeClosure); isClosure {
+							continue
+						}
+						ok := allowed[full]
+						for a := range allowed {
+							if !ok && strings.Contains(a, "*") && !strings.HasPrefix(a, "(*") && globMatch(a, full) {
+								ok = true
+							}
+						}
+						if !ok {
+							bad = append(bad, "call of "+full+" at "+w.pos(x.Pos()))
+						}
+					}
+				}
+			}
+		}
+		if fn != nil {
+			visit(fn)
+		}
+		goal := "true"
+		clause := "deterministic: only calls of " + strings.Join(dd.Allowed, ", ") + "; no map iteration, channels, goroutines"
+		if len(bad) > 0 {
+			goal = "false"
+			clause += "; found: " + strings.Join(bad, "; ")
+		}
+		obls = append(obls, &Obl{Name: key + "#deterministic", Func: key, Clause: clause, Goal: goal, G: g, Kind: "discipline", Tags: dd.Tags})
+	}
+	return obls
 }
 
 func (g *gen) runLemma() {
